@@ -134,6 +134,84 @@ fn shard(seed: u64, shard: u64, tier: Tier) -> Tally {
     t
 }
 
+/// Grammar-aware edits of (mostly valid) requests: Authorization header structure, query string structure, header
+/// list, path. The reference model decides what each edited request must produce.
+fn structured_edits(seed: u64, shard: u64, n: u64) -> Tally {
+    let mut t = Tally::new();
+    for i in 0..n {
+        let mut r = Rng::keyed(seed, "C13", "structured", shard, i);
+        let mut cfg = gen_cfg(&mut r);
+        if r.chance(1, 4) {
+            cfg.reqs = crate::props::c05::gen_reqs(&mut r).0;
+        }
+        let l = gen_logical(&mut r, &cfg, &GenOpts::default());
+        let mut sr = Rng::keyed(seed, "C13", "structured-spell", shard, i);
+        let mut sp = Speller {
+            r: &mut sr,
+            level: (i % 2) as u8,
+        };
+        let chosen: Vec<usize> = if r.chance(1, 4) {
+            vec![r.usize_below(INJECTORS.len())]
+        } else {
+            vec![]
+        };
+        let (mut case, applied) = build_case(&l, &cfg, &chosen, &mut r, &mut sp);
+        let k = 1 + r.usize_below(2);
+        let mut edits: Vec<&'static str> = Vec::new();
+        for _ in 0..k {
+            let e = *r.pick(&crate::mutwire::EDITS);
+            if crate::mutwire::apply(e, &mut case.wire, &mut r) {
+                edits.push(e);
+            }
+        }
+        if edits.is_empty() {
+            continue;
+        }
+        let rec = execute(&case);
+        t.eval();
+        if matches!(rec.outcome, Outcome::NotBuilt(_)) {
+            t.count("not_built_by_http");
+            continue;
+        }
+        if let Some(v) = mon_taxonomy(&case, &rec) {
+            t.violate(v);
+        }
+        let Some(j) = judge(&case, &rec) else {
+            continue;
+        };
+        match &j.agreement {
+            Agreement::Silent(_) => {
+                for e in &edits {
+                    t.count(&format!("edit_silent/{}", e));
+                }
+            }
+            Agreement::Agree => {
+                for e in &edits {
+                    t.count(&format!("edit_decided/{}", e));
+                }
+                t.count(&format!("edited_outcome/{}", j.analysis.stage().name()));
+                t.nontrivial(case.hash());
+                if i % 50 == 0 {
+                    t.sample(12, || J::obj().set("edits", J::strs(edits.iter().map(|s| s.to_string()))).set("request", case.wire.to_sample()).set("reference", J::s(j.analysis.stage().name())).set("library", J::s(rec.outcome.brief())));
+                }
+            }
+            Agreement::Mismatch {
+                detail,
+                known,
+            } => {
+                t.violate(violation(
+                    "structured-edit",
+                    &format!("{:?}/{}", edits, j.analysis.stage().name()),
+                    format!("edits {:?} (injected {:?}): {}", edits, applied, detail),
+                    &case,
+                    *known,
+                ));
+            }
+        }
+    }
+    t
+}
+
 /// (b) on every variant constructed directly, and on the conversions.
 fn taxonomy_table(t: &mut Tally) {
     for k in 0..12u8 {
@@ -206,6 +284,8 @@ pub fn run(tier: Tier) -> i32 {
     let pre = preflight();
     let seed = ctx.seed;
     let mut tally = ctx.par(16, |s| shard(seed, s, tier));
+    let se = ctx.par(32, |s| structured_edits(seed, s, tier.n(3000, 120_000)));
+    tally.merge(se);
     taxonomy_table(&mut tally);
     // thorough: coverage-guided workload (libFuzzer) with every monitor as the oracle
     let san = crate::run::fold_sanitizer_results(&mut tally, false);
@@ -236,6 +316,8 @@ pub fn run(tier: Tier) -> i32 {
         }
     }
     ctx.gate("pair-matrix cells (earlier check, later check, carrier) observed often enough", total - missing, total);
+    let decided_edits = crate::mutwire::EDITS.iter().filter(|e| tally.get(&format!("edit_decided/{}", e)) >= tier.n(50, 1000)).count() as u64;
+    ctx.gate("structured edit kinds applied and decided often enough", decided_edits, crate::mutwire::EDITS.len() as u64 - 1);
     ctx.gate("taxonomy rows checked on directly constructed errors", tally.get("taxonomy_rows_checked"), 12);
     if tier == Tier::Thorough {
         ctx.gate("coverage-guided (libFuzzer) agreement run clean", tally.get("sanitizer/fuzz/clean"), 1);
